@@ -670,11 +670,17 @@ struct DomExec {
       }
       ob = "ca"; return true;
     }
-    if (k == "SetNull") { n.SetNull(); m = JVal::null(); ob = "n"; return true; }
-    if (k == "SetBool") { n.SetBool(op.A(1) & 1); m = JVal::boolean(op.A(1) & 1); ob = "b"; return true; }
-    if (k == "SetInt") { n.SetInt64(op.A(1)); m = JVal::sint(op.A(1)); ob = "i"; return true; }
-    if (k == "SetUint") { n.SetUint64((uint64_t)op.A(1)); m = JVal::uint((uint64_t)op.A(1)); ob = "u"; return true; }
-    if (k == "SetDouble") { double dv; uint64_t bits = (uint64_t)op.A(1); memcpy(&dv, &bits, 8); n.SetDouble(dv); m = JVal::real_bits(bits); ob = "d"; return true; }
+    // a scalar setter must leave a node that is indistinguishable (to ==) from a freshly constructed one, whatever the node held before
+    auto fresh_eq = [&](const N& f, const char* what) {
+      if (!(chk & CHK_EQ)) return;
+      if (!(n == f) || !(f == n) || (n != f)) violate("model", site("scalar_history"), std::string("a node set to a scalar (") + what + ") does not compare equal to a freshly constructed node of the same value (its earlier contents leak into ==)");
+      probe("scalar_set_over_earlier_contents");
+    };
+    if (k == "SetNull") { n.SetNull(); m = JVal::null(); fresh_eq(N(kNull), "null"); ob = "n"; return true; }
+    if (k == "SetBool") { bool bv = op.A(1) & 1; n.SetBool(bv); m = JVal::boolean(bv); fresh_eq(N(bv), "bool"); if ((chk & CHK_EQ) && !(n == bv)) violate("model", site("scalar_history"), "node set to a bool does not compare equal to it"); ob = "b"; return true; }
+    if (k == "SetInt") { n.SetInt64(op.A(1)); m = JVal::sint(op.A(1)); fresh_eq(N((int64_t)op.A(1)), "int64"); if ((chk & CHK_EQ) && !(n == (int64_t)op.A(1))) violate("model", site("scalar_history"), "node set to an int64 does not compare equal to it"); ob = "i"; return true; }
+    if (k == "SetUint") { n.SetUint64((uint64_t)op.A(1)); m = JVal::uint((uint64_t)op.A(1)); fresh_eq(N((uint64_t)op.A(1)), "uint64"); if ((chk & CHK_EQ) && !(n == (uint64_t)op.A(1))) violate("model", site("scalar_history"), "node set to a uint64 does not compare equal to it"); ob = "u"; return true; }
+    if (k == "SetDouble") { double dv; uint64_t bits = (uint64_t)op.A(1); memcpy(&dv, &bits, 8); n.SetDouble(dv); m = JVal::real_bits(bits); if (((bits >> 52) & 0x7ff) != 0x7ff) fresh_eq(N(dv), "double"); ob = "d"; return true; }
     if (k == "SetArray") { n.SetArray(); m = JVal::arr(); ob = "a"; return true; }
     if (k == "SetObject") { n.SetObject(); m = JVal::obj(); ob = "o"; return true; }
     if (k == "SetStr") {
